@@ -595,7 +595,12 @@ def cmd_replay(path, quiet=False):
         return 0
     res, item = got
     same = res["digest"] == rep.get("expected_digest")
-    print(f"REPRODUCED property={prop} invariant={rep['invariant']} digest_match={same}")
+    k = match_known(load_known(), prop, item)
+    if k is not None:
+        # the replayed violation is a listed known finding on this tree: say so, do not alarm
+        print(f"KNOWN-FINDING: property={prop} {k['id']}: {k['summary'][:200]}")
+        print(f"REPRODUCED-AS-KNOWN property={prop} invariant={rep['invariant']} digest_match={same}")
+        return 0
     if not quiet:
         print(f"  detail: {item.get('detail')}")
         print(f"VIOLATION property={prop} replay={path}")
